@@ -465,7 +465,6 @@ Section Transparency.
     - unfold step_out, step_cache; simpl. auto.
   Qed.
 
-  Definition outs (l : list (out * bool * nat)) : list out := map (fun x => fst (fst x)) l.
 
   Lemma run_cached_step : forall c o ops,
     run_cached Vv Vb Vc kd c (o :: ops) =
@@ -545,6 +544,70 @@ Section Transparency.
   Qed.
 End Transparency.
 
+(* ------------------------------------------------------------------ a membership that grows *)
+(* what was accepted stays accepted (adding replicas never invalidates a signature) *)
+Definition grows (S1 S2 : scheme) : Prop :=
+  (forall s m, sv S1 s m = VAccept -> sv S2 s m = VAccept) /\
+  (forall s b, sb S1 s b = VAccept -> sb S2 s b = VAccept).
+Fixpoint growing (l : list scheme) : Prop :=
+  match l with
+  | S1 :: ((S2 :: _) as r) => grows S1 S2 /\ growing r
+  | _ => True
+  end.
+Definition epoch_ok (e : scheme * list op) : Prop :=
+  Forall wf_op (snd e) /\ Forall (sign_sound (sv (fst e))) (snd e).
+
+Section Epochs.
+  Variable kd : keyderiv.
+  Hypothesis Hresp : forall Sc, key_respects (sv Sc) (sb Sc) kd.
+  Hypothesis Hnp : no_key_panic kd.
+
+  Lemma cache_ok_grows : forall S1 S2 c, grows S1 S2 ->
+    cache_ok (sv S1) (sb S1) kd c -> cache_ok (sv S2) (sb S2) kd c.
+  Proof.
+    intros S1 S2 c [G1 G2] Hok k Hk. destruct (Hok k Hk) as [A B]. split.
+    - intros s m Hw He. apply G1. apply A; assumption.
+    - intros s b Hw Hb He. apply G2. apply B; assumption.
+  Qed.
+
+  Lemma final_cache_ok : forall Sc ops c, (1 <= cap c)%nat -> cache_ok (sv Sc) (sb Sc) kd c ->
+    Forall wf_op ops -> Forall (sign_sound (sv Sc)) ops ->
+    cache_ok (sv Sc) (sb Sc) kd (final_cache (sv Sc) (sb Sc) (sc Sc) kd c ops) /\
+    cap (final_cache (sv Sc) (sb Sc) (sc Sc) kd c ops) = cap c.
+  Proof.
+    intros Sc. induction ops as [|o ops IH]; intros c Hcap Hok Hwf Hss; [simpl; auto|].
+    inversion Hwf as [|? ? Hw1 Hw2]; inversion Hss as [|? ? Hs1 Hs2]; subst.
+    destruct (cached_step_spec (sv Sc) (sb Sc) (sc Sc) kd (Hresp Sc) Hnp c o Hcap Hok Hw1 Hs1) as [_ [Hok' [Hc' _]]].
+    rewrite final_cache_step.
+    destruct (IH (step_cache (cached_step (sv Sc) (sb Sc) (sc Sc) kd c o))) as [E1 E2]; try assumption; [lia|].
+    split; [exact E1 | congruence].
+  Qed.
+
+  Theorem transparent_epochs_from : forall es c, (1 <= cap c)%nat ->
+    match es with e :: _ => cache_ok (sv (fst e)) (sb (fst e)) kd c | [] => True end ->
+    Forall epoch_ok es -> growing (map fst es) ->
+    run_epochs kd c es = run_plain_epochs es.
+  Proof.
+    induction es as [|[Sc ops] es IH]; intros c Hcap Hok Hep Hg; [reflexivity|].
+    inversion Hep as [|? ? [Hwf Hss] Hep']; subst. simpl in Hwf, Hss, Hok.
+    cbn [run_epochs run_plain_epochs].
+    rewrite (transparent_from (sv Sc) (sb Sc) (sc Sc) kd (Hresp Sc) Hnp ops c Hcap Hok Hwf Hss). f_equal.
+    destruct (final_cache_ok Sc ops c Hcap Hok Hwf Hss) as [Hok' Hc'].
+    apply IH; [lia | | exact Hep' |].
+    - destruct es as [|[S2 ops2] es']; [exact I|]. simpl. simpl in Hg. destruct Hg as [G _].
+      eapply cache_ok_grows; eauto.
+    - destruct es as [|[S2 ops2] es']; [exact I|]. simpl in Hg. destruct Hg as [_ G]. exact G.
+  Qed.
+
+  Theorem transparent_epochs : forall cp es, (1 <= cp)%nat ->
+    Forall epoch_ok es -> growing (map fst es) ->
+    run_epochs kd (empty cp) es = run_plain_epochs es.
+  Proof.
+    intros cp es Hcp Hep Hg. apply transparent_epochs_from; auto.
+    destruct es as [|e es]; [exact I|]. intros k Hk. simpl in Hk. contradiction.
+  Qed.
+End Epochs.
+
 (* ------------------------------------------------------------------ the repaired derivation is transparent for every scheme *)
 Section Fixed.
   Variable sha : bytes -> bytes.
@@ -601,6 +664,21 @@ Section Fixed.
     - simpl. constructor.
   Qed.
 End Fixed.
+
+Section FixedEpochs.
+  Variable sha : bytes -> bytes.
+  Hypothesis sha_inj : forall a b, sha a = sha b -> a = b.
+  Hypothesis sha_len : forall a, length (sha a) = 32%nat.
+
+  Theorem cache_transparent_growing : forall cp es, (1 <= cp)%nat ->
+    Forall epoch_ok es -> growing (map fst es) ->
+    run_epochs (fixed_kd sha) (empty cp) es = run_plain_epochs es.
+  Proof.
+    intros. apply transparent_epochs; auto.
+    - intro Sc. apply fixed_respects; assumption.
+    - apply fixed_no_panic.
+  Qed.
+End FixedEpochs.
 
 (* ------------------------------------------------------------------ the derivations of the tree as found are not transparent *)
 Definition batch_eqb : batch -> batch -> bool := list_eqb part_eqb.
